@@ -91,6 +91,7 @@ void run_file(Ctx &c, const sim::Op &op) {
     memset(&out, 0x5A, sizeof out);
     c.releases.clear();
     aws_reset_error();
+    if (p.get("poison_errors", 0)) hx::poison_errors(p.seed, 1);
     int rc = with_hint ? aws_byte_buf_init_from_file_with_size_hint(&out, c.alloc, simfile::kPath, hint)
                        : aws_byte_buf_init_from_file(&out, c.alloc, simfile::kPath);
     c.ops_done++;
@@ -210,6 +211,7 @@ void run_growth(Ctx &c) {
     AWS_ZERO_STRUCT(M.buf);
     for (const sim::Op &op : c.plan->ops) {
         if (op.kind == OP_FILE) continue;
+        if (c.plan->get("poison_errors", 0)) hx::poison_errors(c.plan->seed, sim::seq());
         c.ops_done++;
         c.hist = sim::mix64(c.hist, (uint64_t)op.kind * 131 + (uint64_t)op.a);
         if (!M.inited && op.kind != OP_INIT && op.kind != OP_INIT_COPY_CURSOR && op.kind != OP_INIT_CACHE) {
